@@ -142,6 +142,8 @@ def ideq(ctx: Ctx) -> List[Ob]:
             elif isinstance(n, ast.Compare) and len(n.ops) == 1 and isinstance(n.ops[0], (ast.In, ast.NotIn)):
                 rt = env.types(f, n.comparators[0])
                 ot = env.types(f, n.left)
+                if NODELIST in rt and not ot and isinstance(n.left, ast.Attribute) and n.left.attr in ("_parent", "parent"):
+                    ot = {NODE}  # (the parent link of whatever it is read from is a node)
                 if NODELIST in rt and NODE in ot:
                     obs.append(ctx.ob("ID-EQ", _ideq_props(f, "in", n.left, False), f, n, n, False,
                                       "`in` on a node list compares data, not identity"))
